@@ -44,6 +44,11 @@ CLAIMED = {
         text="Host models (shape-computation models + rule hosts) are re-declared with symbolic input dims (shared names, distinct names for equal sizes, unnamed, leading-dim only); optimize() runs once per declared model; for every binding of <=3 symbols to {0,1,2,3,7} symonnx interprets original and optimized model at the bound shapes and z3 decides equality for all input values; a binding on which exactly one model fails is a counterexample (same accepted inputs).",
         note=S_NOTE + " Bindings are enumerated over {0,1,2,3,7}; values under each binding are decided by z3.",
         technique="translation validation under enumerated shape bindings: symbolic ONNX semantics, z3 equivalence, onnxruntime replay"),
+    "C06": dict(
+        category="other", design_ref="§5 C06", engine="X",
+        text="CrossHair/z3 symbolic execution of the real Pattern.match on nine structure classes; host leaves are symbolic (op-type and domain indices over an alphabet with 'other', unbounded attribute ints, constant value from an edge table, sharing / extra-consumer / graph-output booleans); verdict and bindings must equal a declarative spec of 'is an instance' (incl. commute=True vs plain vs non-commutative ops, allow_other_inputs/attributes in all three settings, OR alternatives with tag, multi-output anchoring, removability). Structure classes and wiring are enumerated.",
+        note="Trusted: CrossHair models; my per-class specs (validated by concrete sweeps); const_value stub. Host wiring beyond the nine classes is outside the claim.",
+        technique="symbolic execution (CrossHair+z3) of the real matcher against declarative instance specs, vacuity twins"),
     "C07": dict(
         category="translation_validation", design_ref="§5 C07", engine="S",
         text="Ten generated rules (re-emission via a different op, operand swap, double transpose/negation, x*1, two-output pattern, replacement with a new initializer, as_function, remove_nodes=False) whose p==r is itself proved on the k=1 host; hosts with k<=3 separated/adjacent instances, matched outputs that are graph outputs, intermediates with extra consumers, instances inside If bodies (depth<=2), Loop bodies and model-local functions, initializer name clashes. symonnx + z3 decide [[M]] == [[rewrite(M,[rule])]] for all inputs; validity, signature, unmatched-node multiset and minimum application count are side verdicts.",
